@@ -189,3 +189,39 @@ package scion
 //@   props C08 C18
 //@   loop 1 invariant 0 <= rangeint_iter && rangeint_iter < s.NumINF && offset == 4+rangeint_iter*8 && len(s.InfoFields) == s.NumINF && 0 <= s.NumINF && s.NumINF <= 3 && 0 <= s.NumHops && s.NumHops <= 64 && len(data) >= 4+s.NumINF*8+s.NumHops*12
 //@   loop 2 invariant 0 <= rangeint_iter && rangeint_iter < s.NumHops && offset == 4+s.NumINF*8+rangeint_iter*12 && len(s.HopFields) == s.NumHops && 0 <= s.NumINF && s.NumINF <= 3 && 0 <= s.NumHops && s.NumHops <= 64 && len(data) >= 4+s.NumINF*8+s.NumHops*12
+
+//@ # ---- path reversal (C10, C19): the meta header of a reversed path mirrors the original - segment lengths in
+//@ # reverse order, current info and hop field counted from the other end - and every segment changes direction
+//@ func (*Decoded).Reverse
+//@   props C10 C19
+//@   let n = s.NumINF
+//@   let h = s.NumHops
+//@   requires 0 <= n && n <= 3 && 0 <= h && h <= 64 && len(s.InfoFields) == n && len(s.HopFields) == h
+//@   requires int(s.PathMeta.CurrINF) < n && int(s.PathMeta.CurrHF) < h
+//@   modifies s.PathMeta, arr(s.InfoFields), arr(s.HopFields)
+//@   loop 1 invariant 0 <= rangeint_iter && rangeint_iter < n && len(s.InfoFields) == n && len(s.HopFields) == h && s.PathMeta.CurrINF == old(s.PathMeta.CurrINF) && s.PathMeta.CurrHF == old(s.PathMeta.CurrHF)
+//@   loop 1 invariant s.PathMeta.SegLen[0] == old(s.PathMeta.SegLen[n-1]) && s.PathMeta.SegLen[n-1] == old(s.PathMeta.SegLen[0]) && (n == 3 ==> s.PathMeta.SegLen[1] == old(s.PathMeta.SegLen[1])) && (n <= 2 ==> s.PathMeta.SegLen[2] == old(s.PathMeta.SegLen[2])) && (n <= 1 ==> s.PathMeta.SegLen[1] == old(s.PathMeta.SegLen[1]))
+//@   loop 1 invariant forall q int :: 0 <= q && q < rangeint_iter ==> s.InfoFields[q].ConsDir == !old(s.InfoFields[n-1-q].ConsDir)
+//@   loop 1 invariant forall q int :: rangeint_iter <= q && q < n ==> s.InfoFields[q].ConsDir == old(s.InfoFields[n-1-q].ConsDir)
+//@   loop 2 invariant 0 <= i && j == h-1-i && i <= j+1 && len(s.InfoFields) == n && len(s.HopFields) == h && s.PathMeta.CurrINF == old(s.PathMeta.CurrINF) && s.PathMeta.CurrHF == old(s.PathMeta.CurrHF)
+//@   loop 2 invariant s.PathMeta.SegLen[0] == old(s.PathMeta.SegLen[n-1]) && s.PathMeta.SegLen[n-1] == old(s.PathMeta.SegLen[0]) && (n == 3 ==> s.PathMeta.SegLen[1] == old(s.PathMeta.SegLen[1])) && (n <= 2 ==> s.PathMeta.SegLen[2] == old(s.PathMeta.SegLen[2])) && (n <= 1 ==> s.PathMeta.SegLen[1] == old(s.PathMeta.SegLen[1]))
+//@   loop 2 invariant forall q int :: 0 <= q && q < n ==> s.InfoFields[q].ConsDir == !old(s.InfoFields[n-1-q].ConsDir)
+//@   loop 1 invariant forall q int :: 0 <= q && q < h ==> s.HopFields[q] == old(s.HopFields[q])
+//@   loop 2 invariant forall q int :: (0 <= q && q < i) || (j < q && q < h) ==> s.HopFields[q] == old(s.HopFields[h-1-q])
+//@   loop 2 invariant forall q int :: i <= q && q <= j ==> s.HopFields[q] == old(s.HopFields[q])
+//@   # ... and the hop fields appear in reverse order, unchanged
+//@   ensures result1 == nil ==> forall q int :: 0 <= q && q < h ==> s.HopFields[q] == old(s.HopFields[h-1-q])
+//@   ensures (result1 == nil) == (n != 0)
+//@   ensures result1 == nil ==> typeis(result0, *Decoded) && asptr(result0, *Decoded) == s
+//@   ensures result1 == nil ==> int(s.PathMeta.CurrINF) == n-1-int(old(s.PathMeta.CurrINF)) && int(s.PathMeta.CurrHF) == h-1-int(old(s.PathMeta.CurrHF))
+//@   ensures result1 == nil ==> s.PathMeta.SegLen[0] == old(s.PathMeta.SegLen[n-1]) && s.PathMeta.SegLen[n-1] == old(s.PathMeta.SegLen[0]) && (n == 3 ==> s.PathMeta.SegLen[1] == old(s.PathMeta.SegLen[1])) && (n <= 2 ==> s.PathMeta.SegLen[2] == old(s.PathMeta.SegLen[2])) && (n <= 1 ==> s.PathMeta.SegLen[1] == old(s.PathMeta.SegLen[1]))
+//@   ensures result1 == nil ==> forall q int :: 0 <= q && q < n ==> s.InfoFields[q].ConsDir == !old(s.InfoFields[n-1-q].ConsDir)
+//@   ensures s.NumINF == n && s.NumHops == h
+//@ # assumed (MetaHdr.SerializeTo followed by Decoded.DecodeFromBytes on the same bytes, C18/C19): the decoded path
+//@ # has the meta header and the dimensions of the raw one
+//@ func (*Raw).ToDecoded
+//@   trusted
+//@   modifies arr(s.Raw)
+//@   ensures result1 == nil ==> result0 != nil && fresh(result0) && result0.NumINF == s.NumINF && result0.NumHops == s.NumHops && len(result0.InfoFields) == s.NumINF && len(result0.HopFields) == s.NumHops
+//@   ensures result1 == nil ==> result0.PathMeta.CurrINF == s.PathMeta.CurrINF && result0.PathMeta.CurrHF == s.PathMeta.CurrHF && result0.PathMeta.SegLen[0] == s.PathMeta.SegLen[0] && result0.PathMeta.SegLen[1] == s.PathMeta.SegLen[1] && result0.PathMeta.SegLen[2] == s.PathMeta.SegLen[2]
+//@   ensures result1 == nil ==> int(s.PathMeta.CurrINF) < s.NumINF && int(s.PathMeta.CurrHF) < s.NumHops
